@@ -19,6 +19,7 @@ import (
 	"os"
 	"strconv"
 	"sync"
+	"sync/atomic"
 	"testing"
 	"time"
 
@@ -150,6 +151,9 @@ func TestVerifTaskFree(t *testing.T) {
 		for k := 0; k < ntr && !stuckSeen; k++ {
 			freeRun(t, conc, time.Duration(periodUs)*time.Microsecond, rand.New(rand.NewSource(seed*100000+int64(k)*2+conc)), w)
 		}
+		if conc == 1 && !stuckSeen {
+			saturatedRun(t, time.Duration(periodUs)*time.Microsecond, w)
+		}
 		f.Close()
 	}
 }
@@ -260,6 +264,106 @@ func freeRun(t *testing.T, conc int64, period time.Duration, rng *rand.Rand, w *
 	for _, i := range stuck {
 		stuckSeen = true // one bounded-wait verdict is enough; do not spend 30 s on every further trace
 		r.log(tev{Ev: "Stuck", I: i})
+	}
+	r.mu.Lock()
+	emit(w, r.evs)
+	r.mu.Unlock()
+}
+
+// saturatedRun: the concurrency limit (1) is used up by a body that reacts to cancellation lateStart late, a second
+// invocation is queued behind it, then a prioritized task begins and lasts longer than that. A body that BEGINS more
+// than lateStart after the prioritized task began, while it is still in progress, cannot come from a start decision taken
+// when no prioritized task was in progress (driver verdict LateStart, bounded like Stuck / CxTimeout).
+const lateStart = 5 * time.Second
+
+func saturatedRun(t *testing.T, period time.Duration, w *json.Encoder) {
+	r := newRig(1, period, false)
+	defer r.close()
+	var doAt atomic.Int64 // ns since base of the Do in progress, 0 = none
+	returned := []chan struct{}{make(chan struct{}), make(chan struct{})}
+	began := make(chan struct{}, 8)
+	body := func(i int) func(ctx context.Context) {
+		return func(ctx context.Context) {
+			r.mu.Lock()
+			r.nbody[i]++
+			n := r.nbody[i]
+			now := time.Since(r.base)
+			r.evs = append(r.evs, tev{Ev: "BodyBegin", I: i, N: n, Ts: int(now / time.Microsecond)})
+			if d := doAt.Load(); d != 0 && now-time.Duration(d) >= lateStart {
+				r.evs = append(r.evs, tev{Ev: "LateStart", I: i, N: n, Ts: int(now / time.Microsecond)})
+			}
+			r.mu.Unlock()
+			began <- struct{}{}
+			cx := 0
+			if i == 1 && n == 1 {
+				select {
+				case <-ctx.Done():
+					cx = 1
+					time.Sleep(lateStart + 500*time.Millisecond)
+				case <-time.After(30 * time.Second):
+				}
+			} else {
+				select {
+				case <-ctx.Done():
+					cx = 1
+				case <-time.After(time.Millisecond):
+				}
+			}
+			r.log(tev{Ev: "BodyEnd", I: i, N: n, Cx: cx})
+		}
+	}
+	invoke := func(i int) {
+		go func() {
+			r.mu.Lock()
+			r.inv[verifhook.Goid()] = i
+			r.mu.Unlock()
+			defer func() {
+				if p := recover(); p != nil {
+					r.log(tev{Ev: "Panic", I: i})
+					close(returned[i-1])
+				}
+			}()
+			r.mgr.InvokeBackgroundTask(body(i), 24*time.Hour)
+			r.log(tev{Ev: "Return", I: i})
+			close(returned[i-1])
+		}()
+	}
+	invoke(1)
+	select {
+	case <-began:
+	case <-time.After(30 * time.Second):
+		t.Log("saturated scenario: first body did not start; scenario skipped")
+		return
+	}
+	invoke(2)
+	time.Sleep(300 * time.Millisecond) // invocation 2 queues behind the only slot
+	doAt.Store(int64(time.Since(r.base)) | 1)
+	r.mgr.DoPrioritizedTask()
+	time.Sleep(lateStart + 1500*time.Millisecond)
+	doAt.Store(0)
+	r.mgr.DonePrioritizedTask()
+	deadline := time.After(30 * time.Second)
+	for k := range returned {
+		select {
+		case <-returned[k]:
+		case <-deadline:
+			r.log(tev{Ev: "Stuck", I: k + 1})
+			deadline = time.After(time.Millisecond)
+		}
+	}
+	r.waitFor(20*time.Second, r.bodiesQuiet)
+	for end := time.Now().Add(10 * time.Second); time.Now().Before(end); time.Sleep(200 * time.Microsecond) {
+		r.mu.Lock()
+		nb := 0
+		for _, e := range r.evs {
+			if e.Ev == "Broadcast" {
+				nb++
+			}
+		}
+		r.mu.Unlock()
+		if nb >= 1 {
+			break
+		}
 	}
 	r.mu.Lock()
 	emit(w, r.evs)
